@@ -13,16 +13,19 @@ except Exception:
     results = {}
 
 
+def one(p):
+    r = subprocess.run(['python3', os.path.join(HERE, 'check.py'), p], cwd=HERE, stdout=subprocess.PIPE,
+                       stderr=subprocess.STDOUT, universal_newlines=True,
+                       env=dict(os.environ, VERIF_EVIDENCE_DIR='/tmp/seed_eval_evidence/' + p))
+    viol = [l for l in r.stdout.splitlines() if l.startswith('VIOLATION') or l.startswith('ANALYSIS-BROKEN')]
+    detail = [l.strip() for l in r.stdout.splitlines() if l.startswith('  ')]
+    return p, {'rc': r.returncode, 'lines': viol, 'detail': detail}
+
+
 def run_checks():
-    out = {}
-    for p in props:
-        r = subprocess.run(['python3', os.path.join(HERE, 'check.py'), p], cwd=HERE, stdout=subprocess.PIPE,
-                           stderr=subprocess.STDOUT, universal_newlines=True,
-                           env=dict(os.environ, VERIF_EVIDENCE_DIR='/tmp/seed_eval_evidence'))
-        viol = [l for l in r.stdout.splitlines() if l.startswith('VIOLATION') or l.startswith('ANALYSIS-BROKEN')]
-        detail = [l.strip() for l in r.stdout.splitlines() if l.startswith('  ')]
-        out[p] = {'rc': r.returncode, 'lines': viol, 'detail': detail}
-    return out
+    from concurrent.futures import ThreadPoolExecutor
+    with ThreadPoolExecutor(8) as ex:
+        return dict(ex.map(one, props))
 
 
 assert subprocess.run(['git', '-C', '/repo', 'status', '--porcelain', '--untracked-files=no'], stdout=subprocess.PIPE).stdout.strip() == b'', '/repo dirty'
